@@ -63,6 +63,31 @@ func (x *fnCtx) rederive(st *State, fr *Frame, in ssa.Instruction, v ssa.Value) 
 		if i.Op != token.MUL && i.Op != token.ARROW {
 			return x.unop(st, fr, i)
 		}
+		if i.Op == token.MUL && !x.writes["*"] {
+			// a load from a heap component that this function never writes has the same value
+			// everywhere in the function
+			p := x.getVal(st, fr, i.X)
+			a := x.addrOf(p)
+			if a.Kind == AObj || a.Kind == ACell {
+				var base string
+				if a.Kind == AObj {
+					base, _ = heapKeyStruct(a.Root, a.Path)
+				} else {
+					base = cellHeapName(a.Elem)
+				}
+				stable := true
+				for _, l := range layout(a.Elem) {
+					if x.writes[base+l.Suffix] {
+						stable = false
+					}
+				}
+				if stable {
+					lv := x.load(st, a)
+					lv.Src = a
+					return lv
+				}
+			}
+		}
 	case *ssa.Convert:
 		return x.convert(st, fr, i, true)
 	case *ssa.ChangeType:
@@ -720,7 +745,7 @@ func (x *fnCtx) builtinLenCap(st *State, fr *Frame, name string, arg ssa.Value, 
 	case *types.Map:
 		lenArr := x.heapArr(st, "$maplen", ArrSort(SInt, SInt))
 		l := Select(lenArr, a.L[0])
-		st.assume(Le(IntLit(0), l))
+		st.assume(And(Le(IntLit(0), l), Le(l, BigLit(maxLen))))
 		st.assume(Implies(Eq(a.L[0], IntLit(0)), Eq(l, IntLit(0))))
 		return scalar(rt, l)
 	case *types.Chan:
@@ -1149,10 +1174,21 @@ func (x *fnCtx) typeAssert(st *State, fr *Frame, v *ssa.TypeAssert) *Val {
 
 func mapSorts(mt *types.Map) (ks Sort, ok bool) {
 	kl := layout(mt.Key())
+	if isIface(mt.Key()) {
+		return SInt, true // interface keys are encoded as ikey(tag, payload)
+	}
 	if len(kl) != 1 {
 		return "", false
 	}
 	return kl[0].Sort, true
+}
+
+// mapKey encodes a key value as a single term of the map's key sort.
+func mapKey(k *Val) *Term {
+	if len(k.L) == 2 && isIface(k.T) {
+		return App("ikey", SInt, k.L[0], k.L[1])
+	}
+	return k.L[0]
 }
 
 func mapHeapName(mt *types.Map) string {
@@ -1204,15 +1240,13 @@ func (x *fnCtx) lookup(st *State, fr *Frame, v *ssa.Lookup) *Val {
 	}
 	mt := m.T.Underlying().(*types.Map)
 	if _, ok := mapSorts(mt); !ok {
+		x.lockCheckMap(st, fr, v, m, false)
 		x.eng.logAbs("%s: map with composite key havoced", x.short)
 		return x.havocVal(st, v.Type(), "lookup")
 	}
-	if isIface(mt.Key()) || len(k.L) != 1 {
-		x.eng.logAbs("%s: map with interface key havoced", x.short)
-		return x.havocVal(st, v.Type(), "lookup")
-	}
+	k = x.coerce(k, mt.Key())
 	x.lockCheckMap(st, fr, v, m, false)
-	key := k.L[0]
+	key := mapKey(k)
 	present := And(Ne(m.L[0], IntLit(0)), Select(x.mapDom(st, m), key))
 	val := x.mapGet(st, m, key)
 	z := zeroVal(mt.Elem())
@@ -1240,12 +1274,12 @@ func (x *fnCtx) mapUpdate(st *State, fr *Frame, v *ssa.MapUpdate) {
 	}
 	st.assume(Ne(m.L[0], IntLit(0)))
 	ks, ok := mapSorts(mt)
-	if !ok || len(k.L) != 1 {
+	x.lockCheckMap(st, fr, v, m, true)
+	if !ok {
 		x.eng.logAbs("%s: map with composite key: update ignored", x.short)
 		return
 	}
-	x.lockCheckMap(st, fr, v, m, true)
-	x.mapStore(st, m, k.L[0], x.coerce(val, mt.Elem()))
+	x.mapStore(st, m, mapKey(x.coerce(k, mt.Key())), x.coerce(val, mt.Elem()))
 	_ = ks
 }
 
@@ -1299,6 +1333,8 @@ func (x *fnCtx) rangeInit(st *State, fr *Frame, v *ssa.Range) *Val {
 		if ks, ok2 := mapSorts(mt); ok2 {
 			info.visited = fmt.Sprintf("$visited.%s.%s", x.short, v.Name())
 			x.setHeap(st, info.visited, ConstArray(ArrSort(ks, SBool), False))
+			x.setHeap(st, "$itercnt."+x.short, IntLit(0))
+			heapSorts["$itercnt."+x.short] = SInt
 		}
 	}
 	iterOf[id] = info
@@ -1335,7 +1371,7 @@ func (x *fnCtx) rangeNext(st *State, fr *Frame, v *ssa.Next) *Val {
 	}
 	x.lockCheckMap(st, fr, v, m, false)
 	kv := freshVal(mt.Key(), "next.k", false)
-	key := kv.L[0]
+	key := mapKey(kv)
 	dom := x.mapDom(st, m)
 	vis := x.heapArr(st, info.visited, ArrSort(ks, SBool))
 	st.assume(Implies(okv, And(Ne(m.L[0], IntLit(0)), Select(dom, key), Not(Select(vis, key)))))
@@ -1344,6 +1380,13 @@ func (x *fnCtx) rangeNext(st *State, fr *Frame, v *ssa.Next) *Val {
 	allVisited := Forall([]*Term{bk}, Implies(Select(dom, bk), Select(vis, bk)), Select(dom, bk))
 	st.assume(Implies(Not(okv), allVisited))
 	x.setHeap(st, info.visited, Ite(okv, Store(vis, key, True), vis))
+	// a range over an unmodified map yields exactly len(m) keys: the k-th success has k < len(m)
+	cnt := x.heapArr(st, "$itercnt."+x.short, SInt)
+	lenArr := x.heapArr(st, "$maplen", ArrSort(SInt, SInt))
+	st.assume(Le(IntLit(0), cnt))
+	st.assume(Implies(okv, Lt(cnt, Select(lenArr, m.L[0]))))
+	st.assume(Implies(Not(okv), Eq(cnt, Select(lenArr, m.L[0]))))
+	x.setHeap(st, "$itercnt."+x.short, Ite(okv, Add(cnt, IntLit(1)), cnt))
 	for _, f := range rangeFacts(kv) {
 		st.assume(f)
 	}
